@@ -221,16 +221,20 @@ def check(ctx, rule, name):
             n += 1
             ctx.ob(rule, name, 'rejection %s is still triggered by the reviewed %s' % (short(lab, 80), short(_facts.render(f), 200)), False,
                    problem='no rejecting exit with this result is triggered by the reviewed decision any more (the test was removed, weakened or now guards something else)')
-        if ent.get('sinks') and not ent.get('guarded') and 'Batch' in (ent.get('sinks') or ''):
+        durable_fn = bool(ent.get('sinks')) and 'Batch' in (ent.get('sinks') or '')
+        # state writes of the small bookkeeping functions (fetch / timeout marking, check-point vectors): `x.timeout = true`
+        # skipped under a test the reviewed function never made is a narrowing as well (seeded C11-7)
+        write_fn = bool(ent.get('effects')) and not ent.get('sinks')
+        if (durable_fn or write_fn) and not ent.get('guarded'):
             seen_n = set()
-            for lab, f in _facts.narrowed(ent['exits'], actual):
+            for lab, f in _facts.narrowed(ent['exits'], actual, writes=write_fn):
                 key = (re.sub(r'\(.*$', '', lab), f)
                 if key in seen_n:
                     continue
                 seen_n.add(key)
                 n += 1
-                ctx.ob(rule, name, 'durable write %s is not made conditional on a new test: %s' % (short(re.sub(r'^(?:in closure: )?call ', '', lab), 90), short(_facts.render(f), 200)), False,
-                       problem='a reviewed durable write is now skipped under a condition that the reviewed function never tested')
+                ctx.ob(rule, name, '%s %s is not made conditional on a new test: %s' % ('durable write' if durable_fn else 'state write', short(re.sub(r'^(?:in closure: )?(?:call|write) ', '', lab), 90), short(_facts.render(f), 200)), False,
+                       problem='a reviewed write is now skipped under a condition that the reviewed function never tested')
         seen_b = set()
         for g, f, lab in byp:
             key = (g, f)
